@@ -87,9 +87,18 @@ def api_case(n, markers, perm, avail=None):
         raise Structural("offered", "multi-range object offers deriv=%s deriv2=%s for sub-potential availability %r" % (
           hasattr(mr, "deriv"), hasattr(mr, "deriv2"), avail))
       return [mr(r), mr.deriv(r) if hasattr(mr, "deriv") else None, mr.deriv2(r) if hasattr(mr, "deriv2") else None]
+    if n <= 2:
+      # an earlier evaluation of the same object at another (arbitrary) separation leaves no trace
+      mr1(sym("q"))
     out = ev(mr1)
     if perm != tuple(range(n)):
-      mr2 = create_Multi_Range_Potential_Form(*[Multi_Range_Defn(markers[i], S[i], fs[i]) for i in perm])
+      pdefs = [Multi_Range_Defn(markers[i], S[i], fs[i]) for i in perm]
+      if sum(perm[:2]) % 2:
+        # the permuted ranges assigned through the public property, as a single-pass iterable
+        mr2 = create_Multi_Range_Potential_Form(*d0)
+        mr2.range_defns = iter(pdefs)
+      else:
+        mr2 = create_Multi_Range_Potential_Form(*pdefs)
       out += ev(mr2)
     return [term(x) if x is not None else None for x in out]
 
@@ -201,9 +210,18 @@ def replay_api(n, markers, perm, w, avail=None):
   results = []
   for order in (tuple(range(n)), perm):
     defs = [Multi_Range_Defn(markers[i], S[i], fs[i]) for i in order]
-    mr = create_Multi_Range_Potential_Form(*defs)
+    if order != tuple(range(n)) and sum(order[:2]) % 2:
+      mr = create_Multi_Range_Potential_Form(*[Multi_Range_Defn(markers[i], S[i], fs[i]) for i in range(n)])
+      mr.range_defns = iter(defs)
+    else:
+      mr = create_Multi_Range_Potential_Form(*defs)
     if order == tuple(range(n)):
       create_Multi_Range_Potential_Form(defs[0], Multi_Range_Defn(">", float(w.get("sx", 0.0)), F(n)))
+      if n <= 2 and "q" in w:
+        try:
+          mr(float(w["q"]))
+        except Exception:  # noqa
+          pass
     results.append((mr(r), mr.deriv(r) if hasattr(mr, "deriv") else None, mr.deriv2(r) if hasattr(mr, "deriv2") else None))
     b = concrete_oracle(markers, S, r, 0)
     if b == "ambiguous":
